@@ -9,7 +9,7 @@ PROPERTY = "C17"
 LEVEL = "exploration"
 RULE = ("History leg: Hypothesis-generated sequences (3-14 operations) over 4 module slots: add a fresh module {with its own "
         "_stackscope_install_glue_ | with built-in glue pending | both | neither | own glue that raises | built-in glue that "
-        "raises | both kinds with the module's own glue raising | a None entry | a module that is already in sys.modules when the built-in glue for it is declared (the situation of every module imported before stackscope), without or with glue of its own | [during an extraction, by a hook that then calls extract_child(): the glue must have run when that nested extraction returns] | own glue that, when run, inserts a further glue-bearing helper module (which may be handled by the running extraction or the next one)}, remove, re-insert (same object, a new module object of the same name and kind, or - where the name belonged to a glue-less module or a None entry - a new module object that does have glue), extract; a third of the histories are built around one name changing hands (add, optionally extract, remove, re-insert, filler insertion, extract); judged after "
+        "raises | both kinds with the module's own glue raising | a None entry | a present module whose built-in glue, declared now, fails (must warn, not raise) | a module of a lazily-loading type (any attribute access, __dict__ included, would make it load: an extraction must not) | a module that is already in sys.modules when the built-in glue for it is declared (the situation of every module imported before stackscope), without or with glue of its own | [during an extraction, by a hook that then calls extract_child(): the glue must have run when that nested extraction returns] | own glue that, when run, inserts a further glue-bearing helper module (which may be handled by the running extraction or the next one)}, remove, re-insert (same object, a new module object of the same name and kind, or - where the name belonged to a glue-less module or a None entry - a new module object that does have glue), extract; a third of the histories are built around one name changing hands (add, optionally extract, remove, re-insert, filler insertion, extract); judged after "
         "every extract by a model (per module object: own glue unrun?; per name: built-in glue pending and not superseded?): the "
         "set of glue functions run by that extraction equals the model's, exactly one RuntimeWarning per failing glue, extract "
         "returns normally; over the history no glue function ran twice and never both kinds for one module. Schedule leg "
@@ -25,7 +25,7 @@ ASSUMPTIONS = [
     "present module, and that extraction runs no glue at all",
 ]
 
-KINDS = ["mod", "bi", "both", "none", "raise", "biraise", "nonemod", "importer", "importer", "bothraise", "bipresent", "bothpresent"]
+KINDS = ["mod", "bi", "both", "none", "raise", "biraise", "nonemod", "importer", "importer", "bothraise", "bipresent", "bothpresent", "lazy", "biraisepresent"]
 
 
 def histories():
